@@ -40,6 +40,15 @@ class Observer:
         self.m = model
         self.snaps = []
         self.cap = cap
+        self.pre = None
+        # the distribution the step produced, before the documented removal of classes holding less than one particle
+        # (harness-side wrapper on this one instance; nothing in the library is touched)
+        orig = model._updateParticleSizeDistribution
+
+        def wrapped(t, x, _orig=orig):
+            self.pre = [np.array(xi, dtype=float).copy() for xi in x]
+            return _orig(t, x)
+        model._updateParticleSizeDistribution = wrapped
 
     def snapshot(self):
         m = self.m
@@ -52,6 +61,7 @@ class Observer:
              "lens": [len(getattr(m.pData, a)) for a in ATTRS],
              "rec": [(None if p._recordedPSD is None else (p._recordedPSD[-1].copy(), p._recordedBins[-1].copy(), float(p._recordedTime[-1]), p._recordedPSD.shape))
                      for p in m.PBM],
+             "pre": None if self.pre is None else [p.copy() for p in self.pre],
              "lookups": len(m.therm.lookupT) if hasattr(m.therm, "lookupT") else 0,
              "coupled": {}}
         return s
@@ -294,6 +304,15 @@ def project(cfg, res):
                  "ratenonneg": bool(row["nucRate"][p] >= 0),
                  "gridlen": bool(len(s["psd"][p]) + 1 == len(s["bounds"][p]) == len(s["growth"][p])),
                  "tablen": bool(s["xbeta"][p] is None or len(s["xbeta"][p]) == len(s["bounds"][p]))}
+            # documented removal: a class is removed only if it held less than one particle -- and not less than none
+            pre = s.get("pre")
+            if pre is not None and len(pre[p]) == len(rpsd[:max(nb - 1, 0)]) and not reset_step and nb > 1:
+                pp = pre[p]
+                q["removed01"] = bool(np.all(pp >= -1e-6 * max(1.0, float(np.max(pp)))))
+                want = np.where(pp < 1, 0.0, pp)
+                q["clipok"] = bool(np.array_equal(want, rpsd[:nb - 1]))
+            else:
+                q["removed01"], q["clipok"] = True, True
             # precipitate solute content: table in force during the step = snapshot at the end of the previous step
             tab = (prev["xbeta"][p] if prev is not None else None)
             fc = np.array(row["fconc"][p], dtype=float)
@@ -315,13 +334,23 @@ def project(cfg, res):
             rc = float(row["Rcrit"][p])
             clamped = bool(rc <= m.precipitateParameters[p].Rmin * (1 + 1e-12)) or row["drivingForce"][p] <= 0
             sg, sgw = [], []
+            # a lookup table may lag the temperature by up to maxTempChange (documented refresh rule, C13); with the scripted
+            # closure that moves the radius of zero growth by |se| maxTempChange / (x - xe(T)) relative to Rcrit: the band in
+            # which a class counts as "at" the critical radius is 10 % or twice that lag, whichever is larger
+            wband = 0.1
+            if hasattr(th, "_pp") and hasattr(th, "xe") and np.ndim(row["composition"]) <= 1 and E == 1:
+                pname = m.phases[p]
+                sup = float(np.atleast_1d(row["composition"])[0]) - float(th.xe(float(row["temperature"]), pname))
+                lag = abs(float(th._pp(pname, "se"))) * maxdT / sup if sup > 0 else 1.0
+                wband = max(0.1, 2 * lag / (1 - lag)) if lag < 0.5 else None
             if not clamped and len(g) == len(s["bounds"][p]):
                 for bi, (R, gi) in enumerate(zip(s["bounds"][p], g)):
                     if bi <= s["rdf"][p]:
                         continue      # radii at which the precipitate is reported unstable are outside the law's range
                     rel = cmp3(float(R), rc, rtol=1e-6)
                     sg.append([rel, int(np.sign(gi))])
-                    sgw.append([cmp3(float(R), rc, rtol=0.1), int(np.sign(gi))])      # classes within 10 % of Rcrit count as "at" it
+                    if wband is not None:
+                        sgw.append([cmp3(float(R), rc, rtol=wband), int(np.sign(gi))])      # classes within the band count as "at" Rcrit
             q["gsign"] = [list(t) for t in sorted(set((a, b) for a, b in sg))]
             q["gsignw"] = [list(t) for t in sorted(set((a, b) for a, b in sgw))]
             q["rdf"] = s["rdf"][p]
